@@ -26,9 +26,19 @@ structure MachineOK (c : Ctx) (fm : List FirstSet) (m : Machine) : Prop where
       ∀ y ∈ transitionItems c (m.states.getD s []) X, y ∈ m.states.getD t' []
   hasKernel : ∀ t ∈ m.transitions, ∃ y ∈ m.states.getD t.to [], 1 ≤ y.dot
   tnodup : m.transitions.Nodup
+  distinct : ∀ s1 s2, s1 < m.states.length → s2 < m.states.length →
+    SameCores (m.states.getD s1 []) (m.states.getD s2 []) → s1 = s2
+  just : ∀ s, s < m.states.length → ∀ y ∈ m.states.getD s [], Deriv c fm m.start m.transitions s y
   zcore : ∀ y ∈ m.states.getD m.start [], CReach c fm (fun p => p = (c.numRules, 0)) (coreOf y)
   tcore : ∀ t ∈ m.transitions, ∀ y ∈ m.states.getD t.to [],
     CReach c fm (fun p => ∃ x ∈ transitionItems c (m.states.getD t.frm []) t.sym, coreOf x = p) (coreOf y)
+
+theorem deriv_transport {c : Ctx} {fm : List FirstSet} {b : Builder} {m : Machine} (iso : Iso b m) {i : Nat} {y : Item}
+    (h : Deriv c fm 0 b.transitions i y) : Deriv c fm (renum b 0) m.transitions (renum b i) y := by
+  induction h with
+  | start => exact .start
+  | closure _ himp hyi ih => exact .closure ih himp hyi
+  | goto _ hsym htr ih => exact .goto ih hsym ((iso.trans _).mpr ⟨_, htr, rfl⟩)
 
 theorem machineOK_of_builder {c : Ctx} {fm : List FirstSet} {b : Builder} {m : Machine}
     (inv : BInv c fm (fun _ _ => False) b) (hq : b.queue = [])
@@ -49,6 +59,18 @@ theorem machineOK_of_builder {c : Ctx} {fm : List FirstSet} {b : Builder} {m : M
       done := ?_
       hasKernel := ?_
       tnodup := Oset.Sorted.nodup iso.tsorted
+      distinct := by
+        intro s1 s2 h1 h2 hsc
+        obtain ⟨i1, hi1, rfl⟩ := iso.surj s1 h1
+        obtain ⟨i2, hi2, rfl⟩ := iso.surj s2 h2
+        rw [iso.state i1 hi1, iso.state i2 hi2] at hsc
+        rw [inv.distinct i1 i2 hi1 hi2 hsc]
+      just := by
+        intro s hs' y hy
+        obtain ⟨i, hi, rfl⟩ := iso.surj s hs'
+        rw [iso.state i hi] at hy
+        rw [iso.start]
+        exact deriv_transport iso (inv.just i hi y hy)
       zcore := by rw [iso.start, iso.state 0 inv.nonempty]; exact inv.zcore
       tcore := ?_ }
   · intro s hs'
@@ -100,6 +122,25 @@ theorem machineOK_of_builder {c : Ctx} {fm : List FirstSet} {b : Builder} {m : M
     rw [iso.state _ ok.to] at hy
     rw [iso.state _ ok.frm]
     exact (inv.tcore t ht (coreOf y)).mp ⟨y, hy, rfl⟩
+
+/-- conversely, everything the propagation rules generate is in the machine -/
+theorem deriv_mem {c : Ctx} {fm : List FirstSet} {m : Machine} (mok : MachineOK c fm m) {s : Nat} {y : Item}
+    (h : Deriv c fm m.start m.transitions s y) : s < m.states.length ∧ y ∈ m.states.getD s [] := by
+  induction h with
+  | start => exact ⟨mok.startLt, mok.startItem⟩
+  | closure _ himp hyi ih => exact ⟨ih.1, (mok.good _ ih.1).closed _ ih.2 _ himp _ hyi⟩
+  | @goto s t x X _ hsym htr ih =>
+    obtain ⟨t', htr', hsub⟩ := mok.done s ih.1 x ih.2 X hsym
+    have hto : t' = t := mok.func _ htr' _ htr rfl rfl
+    subst hto
+    exact ⟨(mok.trans _ htr).2.1, hsub _ (mem_transitionItems.mpr ⟨x, ih.2, hsym, rfl⟩)⟩
+
+/-- **the item sets of the generated machine, lookaheads included, are exactly what the LALR(1) propagation
+rules generate** over the machine's own transition graph (least fixed point: start item, closure with
+`FIRST(β a)` lookaheads, moving the dot along transitions — contributions of all predecessor states united) -/
+theorem items_exact {c : Ctx} {fm : List FirstSet} {m : Machine} (mok : MachineOK c fm m) (s : Nat) (y : Item) :
+    (s < m.states.length ∧ y ∈ m.states.getD s []) ↔ Deriv c fm m.start m.transitions s y :=
+  ⟨fun h => mok.just s h.1 y h.2, deriv_mem mok⟩
 
 /-- **the automaton builder, every grammar**: whenever `validated_ast_to_machine` returns a machine, it is a
 well-formed LALR-style automaton in the sense of `MachineOK`, w.r.t. a FIRST table that is closed under the
